@@ -88,6 +88,75 @@ static void run_limiter(Scn& s, tbb::task_arena& A) {
     if (!s.fails && at_thr.load() > 3 && (rej > 0 || topo != 1) && np > 1) { Json j; j.obj(); j.kv("class", "limiter"); j.kv("params", s.params); j.kv("delivered", (long long)sink.log.size()); j.kv("puts_rejected_at_threshold", (long long)rej); j.kv("sink_entries_at_full_threshold", (long long)at_thr.load()); j.kv("decrements", (long long)decs_done.load()); j.end_obj(); s.sample = j.s; }
 }
 
+// ---------------------------------------------------------------------------------------------- limiter_node<T, int>: batch decrements
+// The decrementer takes an integral delta. The sink acknowledges the messages that entered it in batches of 1..threshold: from inside its own
+// body (a lightweight sink runs inside the limiter's try_put, i.e. the batch includes the message still being put: "future decrement"
+// bookkeeping), from the body of a queueing sink, or from an external thread. Every delta acknowledges only messages that really entered
+// the sink, so entries - (sum of deltas whose try_put has started) is a lower bound of forwarded - decremented: above the threshold is a violation.
+static void run_limiter_batch(Scn& s, tbb::task_arena& A) {
+    Rng r(s.seed);
+    GraphBox gb(A); fl::graph& g = gb.g();
+    int T = (int)r.pick(std::vector<int>{ 2, 2, 3, 4, 8 }), topo = (int)r.pick(std::vector<int>{ 0, 0, 1, 3, 3 }), ack_mode = (int)r.below(3);
+    int np = 1 + (int)r.below(3); if (topo == 3 && np < 2) np = 2;
+    int batch = 1 + (int)r.below((uint64_t)T);
+    fl::queue_node<int> q(g);
+    fl::limiter_node<int, int> lim(g, (size_t)T);
+    Producers ps(s, g, r, np, 1, r.chance(1, 5) ? 5 : 80, topo != 1);
+    ps.put = [&](int p, int i) { int v = mkid(p, i); switch (topo) { case 0: return q.try_put(v); case 1: return lim.try_put(v); default: return p == 0 ? lim.try_put(v) : q.try_put(v); } };
+    LogSink<int> sink(s, g, ack_mode == 0 ? SK_LIGHT : SK_ACCEPT, r, ps.total());
+    std::atomic<long> entries{0}, ack_started{0}, ack_done{0}, unacked{0}, tokens{0}, at_thr{0}, batches{0}, multi{0};
+    const std::string K = "c15.limiter_batch";
+    auto ack = [&](long k) { if (k <= 0) return; ack_started.fetch_add(k, RLX); lim.decrementer().try_put((int)k); ack_done.fetch_add(k, RLX); batches.fetch_add(1, RLX); if (k >= 2) multi.fetch_add(1, RLX); };
+    sink.pre = [&](const int&) {
+        long e = entries.fetch_add(1, RLX) + 1, d = ack_started.load(RLX);
+        if (e - d > T) s.fail(K + ".threshold-exceeded", "sink entry " + std::to_string(e) + " while decrements for only " + std::to_string(d) + " messages had been started: at least " + std::to_string(e - d) + " un-decremented forwarded messages, threshold " + std::to_string(T));
+        if (e - d == T) at_thr.fetch_add(1, RLX);
+        if (ack_mode == 2) { tokens.fetch_add(1, RLX); return; }
+        if (unacked.fetch_add(1, RLX) + 1 >= batch) ack(unacked.exchange(0, RLX));      // the sink is serial: nobody else touches unacked meanwhile
+    };
+    if (topo != 1) fl::make_edge(q, lim);
+    fl::make_edge(lim, *sink.in);
+    s.params = "limiter_node<int,int> threshold=" + std::to_string(T) + " topology=" + std::vector<std::string>{ "queue->limiter", "direct-puts", "", "queue+direct-puts" }[topo] + " acknowledged_by=" + std::vector<std::string>{ "lightweight sink body (inside the limiter's put)", "queueing sink body", "external thread" }[ack_mode] + " batch=" + std::to_string(batch) + " producers=" + std::to_string(np) + " items=" + std::to_string(ps.total());
+    std::atomic<bool> stop{false}; std::atomic<long> taken{0}; std::atomic<int> prod_finished{0};
+    uint64_t js = r.next();
+    g_phase.store("limiter_batch: producers running");
+    crew().start(np + (ack_mode == 2 ? 1 : 0), [&](int idx) {
+        if (idx < np) { ps.run_producer(idx, mix(js, idx)); prod_finished.fetch_add(1, std::memory_order_release); return; }
+        Rng rr(mix(js, 60 + idx)); int idle = 0;
+        while (!stop.load(RLX)) {
+            long avail = tokens.load(RLX) - taken.load(RLX);
+            if (avail >= batch || (avail > 0 && ++idle > 40)) { long k = std::min<long>(avail, T); taken.fetch_add(k, RLX); pace(rr, 2); ack(k); idle = 0; s.touch(); progress(); }
+            else sched_yield();
+        }
+    });
+    {
+        int spins = 0; while (prod_finished.load(std::memory_order_acquire) < np) { if (++spins > 20) sched_yield(); }
+        g_phase.store("limiter_batch: draining");
+        int idle_rounds = 0;
+        for (;;) {
+            g.wait_for_all();
+            long want = 0; for (int p = 0; p < np; p++) for (int i = 0; i < ps.n[p]; i++) want += ps.puts[p][i].ok ? 1 : 0;
+            long del = entries.load();
+            if (ack_mode != 2) { long k = unacked.exchange(0, RLX); if (k > 0) { ack(k); idle_rounds = 0; continue; } }     // acknowledge the incomplete last batch (the graph is idle: nothing runs in the sink)
+            else if (ack_done.load() < del) { sched_yield(); idle_rounds = 0; continue; }
+            if (del >= want) break;
+            if (topo == 1) break;
+            if (++idle_rounds >= 3) { s.fail(K + ".stuck", "graph idle after wait_for_all: " + std::to_string(del) + " of " + std::to_string(want) + " messages delivered, all of them acknowledged, threshold " + std::to_string(T) + ": the limiter does not forward the rest"); break; }
+        }
+    }
+    stop.store(true); crew().join();
+    g.wait_for_all(); ps.after_wait();
+    std::vector<int> rest; { int v; while (q.try_get(v)) rest.push_back(v); }
+    std::vector<int> all = sink.log; all.insert(all.end(), rest.begin(), rest.end());
+    check_fifo(s, K, ps, all, false, false, "limiter_node<int,int> (threshold " + std::to_string(T) + ")");
+    if (!rest.empty() && !s.fails) s.fail(K + ".stuck", std::to_string(rest.size()) + " messages are still in the queue in front of the limiter");
+    long rej = 0; for (int p = 0; p < np; p++) for (int i = 0; i < ps.n[p]; i++) if (!ps.puts[p][i].ok) rej++;
+    ST.limb_delivered += (long long)sink.log.size(); ST.limb_batches += batches.load(); ST.limb_multi_batches += multi.load(); ST.limb_at_threshold += at_thr.load();
+    if (ack_mode == 0) ST.limb_inline_batches += batches.load();
+    s.sig = seq_sig(mix(mix(0x12, T), ack_mode * 4 + topo), sink.log); s.sig = mix(s.sig, (uint64_t)rej * 16 + (uint64_t)batch);
+    if (s.witness.load() == 0 && multi.load() > 0 && np > 1) s.witness.store(1);
+}
+
 // ---------------------------------------------------------------------------------------------- overwrite_node / write_once_node
 template <class Node> static void run_single_value(Scn& s, tbb::task_arena& A, bool once) {
     Rng r(s.seed);
